@@ -69,7 +69,13 @@ def unchanged(vc, post, pre):
     return post is pre or post == pre
 
 
-@scenario("block.client_connected", functions=[B + ".client_connected"])
+# concrete addresses of every class (loopback / private / global / neither; plain, IPv6, IPv4-mapped): used only to obtain
+# counter-models and CPython conformance samples that agree with the real ipaddress library
+CANDS = [{"addr": a} for a in ("127.0.0.1", "10.0.0.1", "8.8.8.8", "100.64.0.1", "::1", "fe80::1", "2606:4700:4700::1111",
+                                "::ffff:127.0.0.1", "::ffff:10.0.0.1", "::ffff:8.8.8.8", "::ffff:100.64.0.1")]
+
+
+@scenario("block.client_connected", functions=[B + ".client_connected"], candidates=CANDS)
 def s_block(vc):
     addr = vc.sym_str("addr")
     zone = vc.sym_str("zone")
